@@ -20,7 +20,8 @@ RULE = ("seeded random + stratified ballot profiles (ties, k winners, approval b
 REQUIRED = ["iff_checked:plurality", "iff_checked:approval", "iff_checked:supermajority", "range_values_checked",
             "margin_checked:oracle_tally", "margin_checked:contest_tally_rules_off", "margin_checked:contest_tally_rules_on",
             "stratum:tie", "stratum:exact_threshold", "stratum:lacking_contest_style_off", "truth:winners_really_won",
-            "truth:winners_did_not_win", "margin_tally_holds_write_in_votes"]
+            "truth:winners_did_not_win", "margin_tally_holds_write_in_votes",
+            "style_mean_rechecked_after_scoring_cards_lacking_the_contest"]
 ASSUMPTIONS = ["shares f in {1/2,1/4,1/8} (f and 1/(2f) both dyadic) are exact in binary; inexact shares (2/3, 0.6) are only evaluated at a "
                "distance from the threshold that rounding cannot bridge", "a mark for a name that is not on the contest's "
                "candidate list (write-in) appears only on ballots with no mark for a listed candidate, so that no "
@@ -282,6 +283,24 @@ def run_case(prof, rec):
             if not ok:
                 return
             full_means[name] = float(mm)
+
+        # the mean over the cards that list the contest, taken AFTER the assorters have been applied to every card
+        # (also to cards lacking the contest): a card lacking the contest scores 1/2, so
+        # n_all mean_all = n_listed mean_listed + (n_all - n_listed)/2; evaluating a card must not change what it lists
+        if n_listed and n_listed < len(cvrs):
+            for name, a in asns.items():
+                ok, ms = rec.guard(f"c02.call:mean:{kind}", a.assorter.mean, cvrs, True)
+                if not ok:
+                    return
+                rec.count("style_mean_rechecked_after_scoring_cards_lacking_the_contest")
+                lhs, rhs = len(cvrs) * full_means[name], n_listed * float(ms) + (len(cvrs) - n_listed) / 2
+                if not math.isclose(lhs, rhs, rel_tol=1e-9, abs_tol=1e-9) or \
+                        (use_style and not math.isclose(float(ms), means[name], rel_tol=1e-12, abs_tol=0)):
+                    rec.violation("c02.margin", f"{kind}:mean_over_listed_cards_changed_after_scoring_all_cards",
+                                  {"assertion": name, "mean_all": full_means[name], "mean_listed_now": float(ms),
+                                   "mean_listed_before": means[name] if use_style else None, "n_all": len(cvrs),
+                                   "n_listed": n_listed, "cards_listing_contest_now": sum(1 for c in cvrs if c.has_contest(con.id))})
+                    return
 
         def cmp_margin(label, tally, applicable):
             if not applicable:
